@@ -637,6 +637,12 @@ func (e *Eval) evalCall(n *ECall) tv {
 			return tv{Ite(Le(a, b), a, b), nil}
 		}
 		return tv{Ite(Le(a, b), b, a), nil}
+	case "u8", "u16", "u32", "u64", "i8", "i16", "i32", "i64":
+		// Go integer conversion (exact modular semantics)
+		kinds := map[string]types.BasicKind{"u8": types.Uint8, "u16": types.Uint16, "u32": types.Uint32, "u64": types.Uint64,
+			"i8": types.Int8, "i16": types.Int16, "i32": types.Int32, "i64": types.Int64}
+		t := types.Typ[kinds[n.Fn]]
+		return tv{wrap(e.leaf(n.Args[0]), t), t}
 	case "isZero":
 		return tv{Eq(e.leaf(n.Args[0]), I(0)), nil}
 	case "before":
